@@ -24,7 +24,7 @@ import (
 	"verif/vk"
 )
 
-const c11Rule = "fixwire-serialised messages: 8,9,35 first, header tags in any order, unique arbitrary body tags (or a dictionary-conforming body with groups from specxml), optional XMLData with SOH inside, trailer; then single corruptions of BodyLength / leading order; non-trivial = >=8 fields with >=1 body field, or XMLData, or a group parsed under a dictionary, or a corruption; distinct = distinct message bytes"
+const c11Rule = "fixwire-serialised messages: 8,9,35 first, header tags in any order, unique arbitrary body tags (or a dictionary-conforming body with groups from specxml), optional XMLData with SOH inside, trailer; then single corruptions of BodyLength / leading order; history stage: for the nested groups of the shipped dictionaries, out-of-place probes parsed with a freshly loaded dictionary before and after a conforming message and with the long-lived dictionary; non-trivial = >=8 fields with >=1 body field, or XMLData, or a group parsed under a dictionary, or a corruption; distinct = distinct message bytes"
 
 func c11() *stats.Collector {
 	c := stats.Get("C11")
